@@ -94,6 +94,8 @@ def prop(spec, rec):
         diff = same_state(algo.before_malformed, after)
         require(diff is None, "malformed_schedule_changes_no_state", lambda: "state component %r changed by a rejected schedule (before %r, after %r)" % (diff, algo.before_malformed[diff], after[diff]))
         labels.add("malformed_" + mal["kind"])
+        if mal["entry"].get("short_row_of_length_one"):
+            labels.add("malformed_one_row_of_length_one")
         # the simulation can go on with a well-formed schedule
         sc.run_sim(h)
     else:
@@ -222,6 +224,19 @@ def cases(draw):
                 entry["rows"][b] = entry["rows"][b] + [lv[-1]]
             if b not in entry["order"]:
                 entry["order"].append(b)
+            how = draw(st.sampled_from(["any", "one_short_last", "one_short_first", "one_short_middle"]))
+            if how != "any":
+                # the odd row has length 1 (a scalar-like row numpy would happily stretch), every
+                # other row is longer; the odd row comes first / last / in between in the mapping
+                Lb = max(2, L)
+                for k_ in entry["rows"]:
+                    v = list(entry["rows"][k_])
+                    entry["rows"][k_] = (v + [v[-1]] * Lb)[:Lb]
+                entry["rows"][b] = [lv[-1]]
+                rest = [x for x in entry["order"] if x != b]
+                pos = {"one_short_last": len(rest), "one_short_first": 0, "one_short_middle": len(rest) // 2}[how]
+                entry["order"] = rest[:pos] + [b] + rest[pos:]
+                entry["short_row_of_length_one"] = True
             if entry.get("vtype") == "nparray":
                 entry["vtype"] = "float"
         spec["malformed"] = {"t": t, "kind": kind, "entry": entry}
@@ -262,7 +277,7 @@ def subchecks(tier):
             prop,
             quick=500,
             thorough=40000,
-            floors={"json_resume": 0.062, "beyond_horizon_at_last_period": 0.04, "malformed_unknown_station": 0.04, "malformed_unequal_length": 0.02, "overlapping_schedules": 0.3, "omits_station": 0.166, "empty_schedule": 0.1, "off_level_pilot_finite_evse": 0.025, "all_integer_schedule_first": 0.08, "infinite_pilot_applied": 0.015},
+            floors={"json_resume": 0.062, "beyond_horizon_at_last_period": 0.04, "malformed_unknown_station": 0.04, "malformed_unequal_length": 0.02, "malformed_one_row_of_length_one": 0.02, "overlapping_schedules": 0.3, "omits_station": 0.166, "empty_schedule": 0.1, "off_level_pilot_finite_evse": 0.025, "all_integer_schedule_first": 0.08, "infinite_pilot_applied": 0.015},
             min_nontrivial=50,
         )
     ]
